@@ -53,7 +53,9 @@ def nxt(x, k=1):
 
 KIND_NAMES = {1: "TwoLeafUnitBoundingPotentialEventHandler", 2: "TwoLeafUnitCellBoundingPotentialEventHandler",
               3: "LeafUnitCellVetoEventHandler", 4: "TwoCompositeObjectSummedBoundingPotentialEventHandler",
-              5: "TwoCompositeObjectCellBoundingPotentialEventHandler", 6: "CompositeObjectCellVetoEventHandler"}
+              5: "TwoCompositeObjectCellBoundingPotentialEventHandler", 6: "CompositeObjectCellVetoEventHandler",
+              7: "RootUnitActiveTwoCompositeObjectSummedBoundingPotentialEventHandler",       # part 1b (ROOT_MODULES)
+              8: "RootUnitActiveTwoLeafUnitEventHandler"}
 KIND_MODULES = {1: "jellyfysh.event_handler.two_leaf_unit_bounding_potential_event_handler",
                 2: "jellyfysh.event_handler.two_leaf_unit_cell_bounding_potential_event_handler",
                 3: "jellyfysh.event_handler.leaf_unit_cell_veto_event_handler",
@@ -225,7 +227,7 @@ def handler_cases(ctx, n_cases):
 
     rng = ctx.rng
     mods = {m: importlib.import_module(m) for m in RANDOM_MODULES}
-    classes = {k: getattr(mods[KIND_MODULES[k]], KIND_NAMES[k]) for k in KIND_NAMES}
+    classes = {k: getattr(mods[KIND_MODULES[k]], KIND_NAMES[k]) for k in KIND_MODULES}
     fake = FakeRandom()
     saved = {m: getattr(mod, "random", None) for m, mod in mods.items()}
     for mod in mods.values():
@@ -607,6 +609,532 @@ def part_handlers(ctx):
 
 
 # ------------------------------------------------------------------------------------------------------------------
+# part 1b: the root-unit-active handlers (kinds 7, 8): a whole composite object moves (dipoles/dipole_motion.ini)
+# ------------------------------------------------------------------------------------------------------------------
+# kind 7 RootUnitActiveTwoCompositeObjectSummedBoundingPotentialEventHandler THINS: bound = sum over all (active leaf, target leaf)
+#   pairs of max(0, pair bound), true rate = max(0, sum over ALL pairs of the pair's true derivative). It is driven (a) with recording
+#   stand-in potentials whose values are keyed by the PAIR (so a handler that skips or reorders pairs still gets every pair's own
+#   value) and (b) with the real MergedImageCoulombPotential / InversePowerCoulombBoundingPotential on mixed-sign composite objects;
+#   both against the model (`sendroot 7`, bit for bit) and against the oracle below, which is evaluated on the implementation only.
+# kind 8 RootUnitActiveTwoLeafUnitEventHandler does NOT thin (directly invertible potential, every candidate event is an event): it
+#   belongs to C02's displacement correspondence. Here: implementation-level oracle only (candidate time against the real
+#   potential's `displacement`, out-state = root-level velocity transfer) and its `send_out_state` against the model (`sendroot 8`).
+
+ROOT_MODULES = {7: "jellyfysh.event_handler.root_unit_active_two_composite_object_summed_bounding_potential_event_handler",
+                8: "jellyfysh.event_handler.root_unit_active_two_leaf_unit_event_handler"}
+ROOT_CHARGES = {2: [(1.0, -1.0), (1.0, -1.0), (-1.0, 1.0), (1.0, 1.0), (0.5, -2.0)],
+                3: [(1.0, -0.5, -0.5), (-0.82, 0.41, 0.41), (1.0, 1.0, -1.0), (1.0, -1.0, 1.0)]}
+
+
+class RootRandom(FakeRandom):
+    """FakeRandom whose `expovariate` hands out prescribed potential changes"""
+
+    def __init__(self):
+        super().__init__()
+        self.expo, self.expo_calls = [], 0
+
+    def expovariate(self, lambd):
+        self.expo_calls += 1
+        return self.expo.pop(0) if self.expo else 1.0
+
+
+class PairPot:
+    """recording potential for the root-unit-active cases. `real` given: delegates to that potential object. Otherwise `derivative`
+    returns the table value of the pair whose separation it is asked for (the separations of the pairs of one case are distinct)"""
+
+    def __init__(self, tag, log, ncharge, real=None, disp=None):
+        self.tag, self.log, self.real, self.disp, self.table = tag, log, real, disp, {}
+        self.number_separation_arguments = 1
+        self.number_charge_arguments = ncharge
+        self.potential_change_required = True
+
+    def derivative(self, velocity, separation, *charges):
+        self.log.append((self.tag, list(velocity), list(separation), list(charges)))
+        if self.real is not None:
+            return self.real.derivative(velocity, separation, *charges)
+        return self.table[tuple(f2b(x) for x in separation)]
+
+    def displacement(self, velocity, separation, *args):
+        if self.real is not None:
+            return self.real.displacement(velocity, separation, *args)
+        return self.disp
+
+
+def root_pair_values(rng, n):
+    """mock values (bound b_k, true derivative q_k) of the n pairs of one proposal, with the regime's name"""
+    c = rng.random()
+    mag = 2.0 ** rng.uniform(-20, 8) if rng.random() < 0.25 else rng.uniform(0.05, 4.0)
+    dyadic = rng.random() < 0.5
+
+    def rnd(lo, hi):
+        x = rng.uniform(lo, hi) * mag
+        return round(x * 2 ** 20) / 2 ** 20 if dyadic else x
+    if c < 0.4:          # a dominating pairwise bound: q_k <= max(0, b_k); pairs with b_k <= 0 have q_k <= 0
+        qs = [rnd(-1, 1) for _ in range(n)]
+        bds = [q * rng.choice([1.0, 1.0, rng.uniform(1.0, 2.0)]) if q > 0 else
+               rng.choice([q, 0.0, -0.0, -abs(q) * rng.uniform(0, 3), abs(q) * rng.random()]) for q in qs]
+        return bds, qs, "dominated"
+    if c < 0.55:         # the sum of the true derivatives is <= 0 although single pairs are positive
+        qs = [rnd(-1, 1) for _ in range(n - 1)]
+        tot = 0.0
+        for q in qs:
+            tot += q
+        qs.append(-tot if rng.random() < 0.4 else -tot - abs(rnd(0, 1)))
+        rng.shuffle(qs)
+        bds = [abs(q) * rng.uniform(1.0, 2.0) if q > 0 else -abs(q) for q in qs]
+        return bds, qs, "sum<=0"
+    if c < 0.65:
+        qs = [-abs(rnd(0, 1)) if rng.random() < 0.8 else rng.choice([0.0, -0.0]) for _ in range(n)]
+        bds = [rng.choice([q, 0.0, abs(q)]) for q in qs]
+        return bds, qs, "all<=0"
+    # totals from the regimes of gen_rate_pair (q=b, q=b+-ulp, q>b: warning, b=0, b<0, subnormal), split over the pairs
+    B, Q, regime = gen_rate_pair(rng)
+
+    def split(total):
+        parts = [rng.uniform(-1, 1) * abs(total or 1.0) for _ in range(n - 1)]
+        if dyadic:
+            parts = [round(p * 2 ** 20) / 2 ** 20 for p in parts]
+        last = total
+        for p in parts:
+            last = last - p
+        out = parts + [last]
+        rng.shuffle(out)
+        return out
+    qs = split(Q)
+    bds = [x if rng.random() < 0.6 else -abs(x) for x in split(B)]
+    return bds, qs, "split:" + regime
+
+
+def part_root(ctx):
+    import importlib, copy
+    import jellyfysh.setting as setting
+    from jellyfysh.setting import hypercubic_setting
+    from jellyfysh.base.node import Node
+    from jellyfysh.base.unit import Unit
+    from jellyfysh.base.time import Time
+    import jellyfysh.base.exceptions as jexc
+
+    rng = ctx.rng
+    mods = {k: importlib.import_module(m) for k, m in ROOT_MODULES.items()}
+    tl_mod = importlib.import_module("jellyfysh.event_handler.two_leaf_unit_event_handler")
+    cls7, cls8 = getattr(mods[7], KIND_NAMES[7]), getattr(mods[8], KIND_NAMES[8])
+    fake = RootRandom()
+    patched = [(m, m.random) for m in (mods[7], tl_mod)]
+    for m, _ in patched:
+        m.random = fake
+    warn_records = []
+
+    class LogStub:
+        def warning(self, msg, *a, **k):
+            warn_records.append(msg)
+    old_logger = jexc._logger
+    jexc._logger = LogStub()
+    CH = "q"
+    req, impl, meta = [], [], []
+    stats = {"negpair": 0, "negpair_decisive": 0}
+
+    def sepvec(a, b):
+        return setting.periodic_boundaries.separation_vector(a, b)
+
+    def wrap(x, L):
+        r = x % L
+        return r if 0.0 <= r < L else 0.0
+
+    def scenario(L, nleaf, real):
+        """two composite objects with nleaf leaf units each; ALL units of one of them move with the same velocity"""
+        d = rng.randrange(3)
+        speed = rng.choice([1.0, 1.0, 0.5, 2.0, rng.uniform(0.1, 3)])
+        v = [0.0, 0.0, 0.0]
+        v[d] = speed
+        t0 = rng.choice([0.0, rng.uniform(0, 10), float(rng.randint(0, 2 ** 40)) + rng.random()])
+        ids = rng.sample(range(0, 12), 2)
+        act = rng.randrange(2)
+        use_charge = real or rng.random() < 0.8
+        roots = []
+        for ri in range(2):
+            a = ri == act
+            centre = [rng.random() * L for _ in range(3)]
+            if real or rng.random() < 0.5:
+                ext = rng.choice([0.06, 0.06, 0.15, 0.3]) * L
+                pos = [[wrap(c + rng.uniform(-ext, ext), L) for c in centre] for _ in range(nleaf)]
+            else:
+                pos = [[rng.random() * L for _ in range(3)] for _ in range(nleaf)]
+            if real:
+                ch = list(rng.choice(ROOT_CHARGES[nleaf]))
+            else:
+                ch = [rng.choice([1.0, -1.0, 0.5, -2.0, rng.uniform(-2, 2)]) for _ in range(nleaf)] if use_charge else None
+            w = [1.0 / nleaf] * nleaf if rng.random() < 0.85 else [rng.choice([0.5, 0.25, 1.0]) for _ in range(nleaf)]
+            rv = [0.0, 0.0, 0.0]
+            for wj in w:
+                for k in range(3):
+                    rv[k] += v[k] * wj
+            if rng.random() < 0.07:
+                rv = [x * 0.3 for x in v]
+            rw = 1 if rng.random() < 0.9 else rng.choice([1.0, 0.5])
+
+            def ts():
+                return Time.from_float(t0) if a else None
+            root = Node(Unit(identifier=(ids[ri],), position=centre, charge=({CH: 0.0} if use_charge else None),
+                             velocity=list(rv) if a else None, time_stamp=ts()), weight=rw)
+            order = list(range(nleaf))
+            if rng.random() < 0.3:
+                rng.shuffle(order)
+            for j in order:
+                root.add_child(Node(Unit(identifier=(ids[ri], j), position=pos[j], charge=({CH: ch[j]} if use_charge else None),
+                                         velocity=list(v) if a else None, time_stamp=ts()), weight=w[j]))
+            roots.append(root)
+        plain = all(r.weight == 1 for r in roots) and all(abs(sum(c.weight for c in r.children) - 1.0) < 1e-12 for r in roots) \
+            and all(abs(roots[act].value.velocity[k] - v[k]) < 1e-12 for k in range(3))
+        return {"d": d, "speed": speed, "v": v, "t0": t0, "act": act, "roots": roots, "use_charge": use_charge, "plain": plain}
+
+    def vels(st):
+        return [None if u.velocity is None else [f2b(x) for x in u.velocity] for u in flat_units(st)]
+
+    def leaves_sorted(root):
+        return sorted([c.value for c in root.children], key=lambda u: u.identifier)
+
+    def impl_string(exc, out, h, log, confirmed, warned):
+        if exc is not None:
+            return "err:" + exc
+        if out is None:
+            return "none"
+        if out is not h._state:
+            return "ok-but-foreign-state"
+        t = ["ok", "1" if confirmed else "0", "1" if warned else "0", "G" + f2b(fake.calls[0][1]) if fake.calls else "G-",
+             "C", str(len(log))]
+        for tag, cv, cs, cc in log:
+            t += [tag] + show_list(cv) + show_list(cs) + show_list(cc)
+        return " ".join(t + ["I", "0", "S"] + show_state(out))
+
+    def transfer_oracle(name, case, sc, branches, et, L):
+        """what a root-level velocity transfer is, stated on the out-state (composite objects with root weight 1 and consistent weights)"""
+        v, t0 = sc["v"], Time.from_float(sc["t0"])
+        aid = sc["roots"][sc["act"]].value.identifier
+        dt = et.quotient - t0.quotient + et.remainder - t0.remainder
+        for r in branches:
+            was_active = r.value.identifier == aid
+            for u in [r.value] + [c.value for c in r.children]:
+                leaf = len(u.identifier) == 2
+                if was_active:
+                    if u.velocity is not None or u.time_stamp is not None:
+                        ctx.fail(f"{name}:accepted-but-not-a-transfer", case, f"unit {u.identifier} of the formerly active composite object "
+                                 f"still has velocity {u.velocity}")
+                elif u.time_stamp is None or (f2b(u.time_stamp.quotient), f2b(u.time_stamp.remainder)) != (f2b(et.quotient), f2b(et.remainder)):
+                    ctx.fail(f"{name}:accepted-but-not-a-transfer", case, f"unit {u.identifier} of the target composite object does not carry "
+                             f"the event time as its time stamp")
+                elif u.velocity is None or (leaf and [f2b(x) for x in u.velocity] != [f2b(x) for x in v]) \
+                        or (not leaf and any(abs(x - y) > 1e-12 * max(1.0, abs(y)) for x, y in zip(u.velocity, v))):
+                    ctx.fail(f"{name}:accepted-but-not-a-transfer", case, f"unit {u.identifier} of the target composite object has velocity "
+                             f"{u.velocity}, the active composite object moved with {v}")
+        return dt
+
+    def run7(sc, L, real, P, draws):
+        name = KIND_NAMES[7]
+        roots, act, v = sc["roots"], sc["act"], sc["v"]
+        n = len(roots[0].children)
+        in_state0 = list(roots)
+        if rng.random() < 0.5:
+            in_state0.reverse()
+        pc = rng.expovariate(1.0)
+        disp = rng.choice([0.0, rng.uniform(0, 2 * L), rng.uniform(0, 1e-3)])
+        cname = CH if sc["use_charge"] else None
+        rev = rng.random() < 0.3
+        for (mode, dv, dcls) in draws:
+            in_state = copy.deepcopy(in_state0)
+            branches = copy.deepcopy(in_state0)
+            if rev:
+                branches.reverse()
+            aroot = [r for r in in_state if r.value.identifier == roots[act].value.identifier][0]
+            troot = [r for r in in_state if r is not aroot][0]
+            log = []
+            if real:
+                pot, bpot = PairPot("P", log, 2, real=P[0]), PairPot("B", log, 2, real=P[1])
+            else:
+                nch = 2 if sc["use_charge"] else 0
+                pot, bpot = PairPot("P", log, nch), PairPot("B", log, nch, disp=disp)
+            base = {"handler": name, "potentials": "real" if real else "stand-in", "L": L}
+            try:
+                h = cls7(potential=pot, bounding_potential=bpot, charge=cname)
+            except Exception as e:  # noqa
+                ctx.fail("handler-construction:" + name, base, f"constructor raised {e!r}")
+                return
+            # ---- send_event_time (real); the candidate time recomputed from the bounding potential: every pair gets the potential change pc
+            loc0, tar0 = leaves_sorted(aroot), leaves_sorted(troot)
+
+            def chg(a, t):
+                return (a.charge[CH], t.charge[CH]) if sc["use_charge"] else ()
+            if real:
+                want_disp = min(P[1].displacement(list(a.velocity), sepvec(a.position, t.position), *chg(a, t), pc) for a in loc0 for t in tar0)
+            else:
+                want_disp = disp
+            want_time = Time.from_float(sc["t0"]) + want_disp
+            fake.expo, fake.expo_calls = [pc] * (n * n), 0
+            try:
+                ret = h.send_event_time(in_state)
+            except Exception as e:  # noqa
+                ctx.fail("send_event_time:" + name, base, f"send_event_time raised {e!r}")
+                return
+            et = h._event_time
+            if ret[0] is not et or (f2b(et.quotient), f2b(et.remainder)) != (f2b(want_time.quotient), f2b(want_time.remainder)):
+                ctx.fail(f"{name}:candidate-time-not-from-the-bounding-potential",
+                         {**base, "t0": sc["t0"], "potential_change": pc, "expected": [want_time.quotient, want_time.remainder],
+                          "got": [et.quotient, et.remainder]},
+                         "the candidate event time is not time stamp + min over all leaf-unit pairs of the bounding potential's displacement")
+            if sorted(tuple(x) for x in ret[1]) != sorted([aroot.value.identifier, troot.value.identifier]):
+                ctx.fail(f"{name}:send_event_time-wrong-composite-objects", base, f"returned identifiers {ret[1]!r}")
+            if not (math.isfinite(et.quotient) and math.isfinite(et.remainder)):
+                ctx.count("root:7:infinite-candidate-time(skipped)")
+                return
+            # ---- the pair table at the candidate time, independent of the handler
+            loc, tar = leaves_sorted(aroot), leaves_sorted(troot)
+            seps = [[sepvec(a.position, t.position) for t in tar] for a in loc]
+            keys = [tuple(f2b(x) for x in s_) for row in seps for s_ in row]
+            if len(set(keys)) != len(keys):
+                ctx.count("root:7:coinciding-separations(skipped)")
+                return
+            if real:
+                bds = [P[1].derivative(list(a.velocity), list(seps[i][j]), *chg(a, t)) for i, a in enumerate(loc) for j, t in enumerate(tar)]
+                qs = [P[0].derivative(list(a.velocity), list(seps[i][j]), *chg(a, t)) for i, a in enumerate(loc) for j, t in enumerate(tar)]
+                regime = "real"
+            else:
+                if mode is None:
+                    sc["values"] = root_pair_values(rng, n * n)
+                bds, qs, regime = sc["values"]
+                pot.table, bpot.table = dict(zip(keys, qs)), dict(zip(keys, bds))
+            bound, fd = 0.0, 0.0
+            for x in bds:
+                bound += max(0.0, x)
+            for x in qs:
+                fd += x
+            thr = max(0.0, fd)
+            if mode is None:
+                mode, dv, dcls = gen_draw(rng, bound, thr)
+            elif mode == "thr":
+                mode, dv = "d", (thr if dv == 0 else nxt(thr, dv)) if thr > 0 or dv >= 0 else 0.0
+            negpair = any(b <= 0.0 and q < 0.0 for b, q in zip(bds, qs))
+            # ---- request line: the time-sliced in-state, the branches as handed to send_out_state, the pair values, the draw
+            line = ["sendroot", "7", "1" if sc["use_charge"] else "0", f2b(L), f2b(TINY), f2b(et.quotient), f2b(et.remainder), str(len(in_state))]
+            for r in in_state:
+                line += enc_root(r, CH)
+            line += [str(len(branches))]
+            for r in branches:
+                line += enc_root(r, CH)
+            line += show_list(bds) + show_list(qs) + [mode, f2b(dv)]
+            line = " ".join(line)
+            v_before = vels(branches)
+            tid = troot.value.identifier
+            fake.mode, fake.val, fake.calls = mode, dv, []
+            del warn_records[:]
+            del log[:]
+            exc, out = None, None
+            try:
+                out = h.send_out_state(branches)
+            except AssertionError:
+                exc = "AssertionError"
+            except Exception as e:  # noqa
+                exc = type(e).__name__
+            warned = len(warn_records) > 0
+            v_after = vels(branches)
+            # confirmed: the target composite object moves afterwards (this is what a confirmed event IS; it does not presuppose that
+            # nothing else changed)
+            confirmed = any(u.velocity is not None for r in branches if r.value.identifier == tid for u in [r.value] + [c.value for c in r.children])
+            req.append(line)
+            impl.append(impl_string(exc, out, h, log, confirmed, warned))
+            meta.append({"kind": 7, "regime": regime, "dcls": dcls, "outcome": "err" if exc else "accept" if confirmed else "reject",
+                         "warned": warned, "n": n, "negpair": negpair, "real": real})
+            # ---- the property, on the implementation
+            case = {"request": line, **base, "direction": sc["d"], "speed": sc["speed"],
+                    "pairs": [{"active": list(a.identifier), "target": list(t.identifier), "separation": [x.hex() for x in seps[i][j]],
+                               "charges": list(chg(a, t)), "bound": float(bds[i * n + j]).hex(), "true": float(qs[i * n + j]).hex()}
+                              for i, a in enumerate(loc) for j, t in enumerate(tar)],
+                    "bounding_rate": bound.hex(), "true_rate": thr.hex(), "draw_mode": mode, "draw": float(dv).hex()}
+            if exc is not None:
+                ctx.fail(f"{name}:unexpected-exception", case, f"send_out_state raised {exc}")
+                continue
+            exact = sum((Fr(x) for x in qs), Fr(0))
+            band = Fr(0) if Fr(fd) == exact else Fr(2, 2 ** 52) * max(abs(Fr(x)) for x in qs) * len(qs)
+            qplus = max(Fr(0), exact)
+            bexact = sum((max(Fr(0), Fr(x)) for x in bds), Fr(0))
+            bband = Fr(0) if Fr(bound) == bexact else Fr(2, 2 ** 52) * max(abs(Fr(x)) for x in bds) * len(bds)
+            upper = bound
+            if fake.calls:
+                a0, upper = fake.calls[0]
+                if a0 != 0 or len(fake.calls) != 1 or abs(Fr(upper) - bexact) > bband:
+                    ctx.fail(f"{name}:uniform-not-over-[0,bound]", case, f"random.uniform called with {fake.calls}, the bounding rate "
+                             f"sum over all pairs of max(0, pair bound) is {float(bexact)!r}")
+            elif qplus > band:
+                ctx.fail(f"{name}:no-uniform-drawn", case, "true rate positive but no uniform number was drawn")
+            if mode == "d":
+                draw = Fr(dv)
+            else:
+                draw = Fr(upper) * Fr(dv)
+                band += Fr(1, 2 ** 52) * abs(draw) + Fr(5e-324)
+            want = draw < qplus
+            if draw >= 0 and abs(draw - qplus) > band:
+                if negpair:
+                    stats["negpair_decisive"] += 1
+                if confirmed != want:
+                    ctx.fail(f"{name}:acceptance-not-exact-ratio", case,
+                             f"confirmed={confirmed} but draw {float(draw)!r} {'<' if want else '>='} max(0, sum over all "
+                             f"{len(qs)} pairs of the true derivative) = {float(qplus)!r} (bounding rate {float(bexact)!r})")
+            if confirmed and qplus == 0 and band == 0:
+                ctx.fail(f"{name}:accepted-with-zero-true-rate", case, "the true rate is max(0, sum of all pair derivatives) = 0, yet the event was confirmed")
+            if not confirmed and v_after != v_before:
+                ctx.fail(f"{name}:rejected-but-velocities-changed", case, "the event was not confirmed, yet velocities changed")
+            if warned != (qplus > 0 and bexact < exact) and abs(bexact - exact) > band + bband:
+                ctx.fail(f"{name}:warning-wrong", case, f"warned={warned} bound={float(bexact)!r} true={float(exact)!r}")
+            if confirmed and sc["plain"]:
+                transfer_oracle(name, case, sc, branches, et, L)
+            if real:
+                # a dominating bounding potential: pair by pair and in the sum (above the floor of the Ewald routine's noise)
+                for k, (b_, q_) in enumerate(zip(bds, qs)):
+                    a, t = loc[k // n], tar[k % n]
+                    floor = FLOOR / (L * L) * abs(a.charge[CH] * t.charge[CH]) * sc["speed"]
+                    if q_ > floor and not (b_ > 0 and b_ >= q_):
+                        ctx.fail(f"{name}:pair-bound-below-true-rate", {**case, "pair": k}, f"pair bound {b_!r} < pair true derivative {q_!r}")
+                if thr > FLOOR / (L * L) * len(qs) * sc["speed"] * 4 and bound < thr:
+                    ctx.fail(f"{name}:bound-below-true-rate", case, f"summed bounding rate {bound!r} < true rate {thr!r}")
+            if negpair:
+                stats["negpair"] += 1
+
+    def run8(sc, L, pot8, use_charge):
+        """RootUnitActiveTwoLeafUnitEventHandler: no thinning. Candidate time against the real potential's displacement; the out-state is
+        the root-level transfer of the velocity; `send_out_state` against the model."""
+        name = KIND_NAMES[8]
+        roots, act, v = sc["roots"], sc["act"], sc["v"]
+        n = len(roots[0].children)
+        base = {"handler": name, "L": L, "direction": sc["d"], "speed": sc["speed"], "t0": sc["t0"]}
+        try:
+            h = cls8(potential=pot8, charge=CH if use_charge else None)
+        except Exception as e:  # noqa
+            ctx.fail("handler-construction:" + name, base, f"constructor raised {e!r}")
+            return
+        full = list(roots)
+        if rng.random() < 0.5:
+            full.reverse()
+        branches = copy.deepcopy(full)
+        if rng.random() < 0.3:
+            branches.reverse()
+        in_state = []
+        for r in full:          # the branches of the two interacting leaf units: root cnode with that one child
+            c = rng.choice(r.children)
+            nr = Node(copy.deepcopy(r.value), weight=r.weight)
+            nr.add_child(Node(copy.deepcopy(c.value), weight=c.weight))
+            in_state.append(nr)
+        ai = 0 if in_state[0].value.velocity is not None else 1
+        a, t = in_state[ai].children[0].value, in_state[ai ^ 1].children[0].value
+        lu = [in_state[0].children[0].value, in_state[1].children[0].value]
+        # potential change of the order of the pair potential (else the candidate time is infinite)
+        pc = rng.expovariate(1.0) * abs(pot8._prefactor) * 10.0 ** rng.uniform(-3, 3) if rng.random() < 0.9 else rng.expovariate(1.0)
+        cands = []
+        for c_ in ([(lu[0].charge[CH], lu[1].charge[CH]), (a.charge[CH], t.charge[CH])] if use_charge else [(1.0, 1.0)]):
+            dsp = pot8.displacement(list(v), sepvec(a.position, t.position), *c_, potential_change=pc)
+            tm = Time.from_float(sc["t0"]) + dsp
+            cands.append((f2b(tm.quotient), f2b(tm.remainder)))
+        case = {**base, "potential": {"power": pot8._power, "prefactor": pot8._prefactor}, "potential_change": pc,
+                "active": {"id": list(a.identifier), "position": [x.hex() for x in a.position], "charge": a.charge and a.charge[CH]},
+                "target": {"id": list(t.identifier), "position": [x.hex() for x in t.position], "charge": t.charge and t.charge[CH]}}
+        fake.expo, fake.expo_calls = [pc], 0
+        try:
+            ret = h.send_event_time(in_state)
+        except Exception as e:  # noqa
+            ctx.fail("send_event_time:" + name, case, f"send_event_time raised {e!r}")
+            return
+        et = ret[0]
+        ctx.evaluations += 1
+        if (f2b(et.quotient), f2b(et.remainder)) not in cands:
+            ctx.fail(f"{name}:candidate-time-not-the-potential's-displacement", {**case, "got": [et.quotient, et.remainder]},
+                     "the candidate event time is not the active unit's time stamp + potential.displacement(velocity, separation, charges, potential change)")
+        if list(ret[1]) != [r.value.identifier for r in in_state]:
+            ctx.fail(f"{name}:send_event_time-wrong-composite-objects", case, f"returned identifiers {ret[1]!r}")
+        finite = math.isfinite(et.quotient) and math.isfinite(et.remainder)
+        ctx.cls(("root", 8, "finite" if finite else "inf", use_charge, n))
+        if not finite:
+            ctx.count("root:8:infinite-candidate-time")
+            return
+        line = ["sendroot", "8", "1" if use_charge else "0", f2b(L), f2b(TINY), f2b(et.quotient), f2b(et.remainder), str(len(in_state))]
+        for r in in_state:
+            line += enc_root(r, CH)
+        line += [str(len(branches))]
+        for r in branches:
+            line += enc_root(r, CH)
+        line += ["0", "0", "d", f2b(0.0)]
+        line = " ".join(line)
+        before = {u.identifier: list(u.position) for u in flat_units(branches)}
+        fake.calls = []
+        exc, out = None, None
+        try:
+            out = h.send_out_state(branches)
+        except AssertionError:
+            exc = "AssertionError"
+        except Exception as e:  # noqa
+            exc = type(e).__name__
+        req.append(line)
+        impl.append(impl_string(exc, out, h, [], True, False))
+        meta.append({"kind": 8, "regime": "invertible", "dcls": "-", "outcome": "err" if exc else "accept", "warned": False, "n": n,
+                     "negpair": False, "real": True})
+        case = {"request": line, **case}
+        if exc is not None:
+            ctx.fail(f"{name}:unexpected-exception", case, f"send_out_state raised {exc}")
+            return
+        if fake.calls:
+            ctx.fail(f"{name}:draws-a-uniform-number", case, "a directly invertible event is never thinned, yet random.uniform was called")
+        if sc["plain"]:
+            dt = transfer_oracle(name, case, sc, branches, et, L)
+            aid = roots[act].value.identifier
+            for u in flat_units(branches):       # positions: the moving composite object advanced to the event time, the other untouched
+                for k in range(3):
+                    wantp = before[u.identifier][k] + (v[k] * dt if u.identifier[0] == aid[0] else 0.0)
+                    diff = (u.position[k] - wantp) % L
+                    if min(diff, L - diff) > 1e-9 * L:
+                        ctx.fail(f"{name}:out-state-position", case, f"unit {u.identifier} component {k}: {u.position[k]!r}, expected {wantp % L!r}")
+
+    try:
+        n_mock, n_real, n_8 = ctx.n(1500, 9000), ctx.n(70, 500), ctx.n(300, 2500)
+        groups = [(L, nleaf) for L in (1.0, 2.5, 0.7) for nleaf in (2, 3)]
+        for gi, (L, nleaf) in enumerate(groups):
+            setting.reset()
+            hypercubic_setting.HypercubicSetting(beta=1.0, dimension=3, system_length=L)
+            setting.set_number_of_root_nodes(2)
+            setting.set_number_of_nodes_per_root_node(nleaf)
+            setting.set_number_of_node_levels(2)
+            for _ in range(max(1, n_mock // len(groups))):
+                run7(scenario(L, nleaf, False), L, False, None, [(None, 0.0, "")])
+            if L != 0.7 or not ctx.quick:
+                from jellyfysh.potential.merged_image_coulomb_potential import MergedImageCoulombPotential
+                from jellyfysh.potential.inverse_power_coulomb_bounding_potential import InversePowerCoulombBoundingPotential
+                P = (MergedImageCoulombPotential(), InversePowerCoulombBoundingPotential())
+                for _ in range(max(1, n_real // 4)):
+                    # one scenario, many draws: the thresholds and a grid of random() values over [0, 1)
+                    draws = [("thr", 0, "thr"), ("thr", -1, "thr-ulp"), ("thr", 1, "thr+ulp"), ("d", 0.0, "0")]
+                    draws += [("r", (i + rng.random()) / 8, "r-grid") for i in range(8)]
+                    run7(scenario(L, nleaf, True), L, True, P, draws)
+            from jellyfysh.potential.inverse_power_potential import InversePowerPotential
+            for _ in range(max(1, n_8 // len(groups))):
+                uc = rng.random() < 0.5
+                pot8 = InversePowerPotential(power=rng.choice([6, 6, 2, 12, 1]), prefactor=rng.choice([1.0e-6, 1.0e-6, 1.0, 1.0e-3]))
+                run8(scenario(L, nleaf, uc), L, pot8, uc)
+    finally:
+        for m, old in patched:
+            m.random = old
+        jexc._logger = old_logger
+        setting.reset()
+    rep = ctx.model("thin", req)
+    for line, s, r, m in zip(req, impl, rep, meta):
+        ctx.evaluations += 1
+        ctx.count(f"handler:{m['kind']}:{m['outcome']}")
+        ctx.cls(("root", m["kind"], m["regime"], m["dcls"], m["outcome"], m["warned"], m["n"], m["negpair"], m["real"]))
+        if s != r:
+            ctx.disagree("thin.sendroot[" + KIND_NAMES[m["kind"]] + "]", {"request": line, "regime": m["regime"], "draw": m["dcls"]}, s[:600], r[:600])
+        if m["kind"] == 7:
+            ctx.sample({"request": line[:300] + " …", "impl": s[:200] + " …", "model": r[:200] + " …"}, cap=5)
+    ctx.count("root:7:cases-with-a-pair(bound<=0,true<0)", stats["negpair"])
+    ctx.count("root:7:such-cases-where-the-draw-decides", stats["negpair_decisive"])
+    if stats["negpair_decisive"] < 50:
+        raise RuntimeError("root-unit-active scenarios: fewer than 50 decided cases with a pair of non-positive bound and negative true derivative")
+
+
+# ------------------------------------------------------------------------------------------------------------------
 # the kernel alone: bounding_potential_warning and CPython's uniform
 # ------------------------------------------------------------------------------------------------------------------
 
@@ -969,12 +1497,24 @@ def runs_start(ctx):
     procs = []
     # the same cell-bounded configurations with several particles and as many event handlers per tagger: several cell-bounded
     # candidates of one tagger are pending at once, each on its own deep copy of the prepared handler (and of its bounding potential)
+    # every section of the .ini that has `number_event_handlers` gets a pool of 2 x number_of_root_nodes: the shipped pools equal their
+    # demand bound for 2 root nodes and the demand grows with the number of root nodes (a too small pool of ANY tagger, also of the
+    # factor taggers Repulsive / Harmonic of the dipoles, ends the run with a TagActivatorError, which is no statement about C04)
     many = [("coulomb_atoms/cell_bounded.ini", 1.2, 6.0, {"RandomInputHandler": {"number_of_root_nodes": 6},
-             "CoulombCellBounding": {"number_event_handlers": 6}, "CoulombNearby": {"number_event_handlers": 6},
-             "CoulombSurplus": {"number_event_handlers": 6}, "CuboidPeriodicCells": {"cells_per_side": "5, 5, 5"}}),
+             "CoulombCellBounding": {"number_event_handlers": 12}, "CoulombNearby": {"number_event_handlers": 12},
+             "CoulombSurplus": {"number_event_handlers": 12}, "CuboidPeriodicCells": {"cells_per_side": "5, 5, 5"}}),
             ("dipoles/cell_bounded.ini", 0.6, 3.0, {"RandomInputHandler": {"number_of_root_nodes": 4},
-             "CoulombCellBounding": {"number_event_handlers": 4}, "CoulombNearby": {"number_event_handlers": 4},
-             "CoulombSurplus": {"number_event_handlers": 4}})]
+             "CoulombCellBounding": {"number_event_handlers": 8}, "CoulombNearby": {"number_event_handlers": 8},
+             "CoulombSurplus": {"number_event_handlers": 8}, "Repulsive": {"number_event_handlers": 8},
+             "Harmonic": {"number_event_handlers": 8}})]
+    for _ini, _tq, _tt, _ov in many:       # the rule above, checked against the .ini of the tree under test
+        from configparser import ConfigParser
+        _cfg = ConfigParser()
+        _cfg.read(os.path.join(ctx.root, "jellyfysh", "config_files", "2018_JCP_149_064113", _ini))
+        _need = 2 * int(_ov["RandomInputHandler"]["number_of_root_nodes"])
+        for _sec in _cfg.sections():
+            if _cfg.has_option(_sec, "number_event_handlers") and int(_ov.get(_sec, {}).get("number_event_handlers", 0)) < _need:
+                raise RuntimeError(f"harness: many-particle override of {_ini} leaves the pool of [{_sec}] below {_need}")
     cfgs = [c + (None,) for c in cfgs] + ([many[0]] if ctx.quick else many)
     for ini, tq, tt, ov in cfgs:
         seed = ctx.rng.randrange(2 ** 31)
@@ -1094,6 +1634,7 @@ def run(ctx):
         part_kernel(ctx)
         part_bound_formula(ctx)
         part_handlers(ctx)
+        part_root(ctx)
         from harness import c04_piecewise      # the piecewise-constant bounding family (sequences on one handler object)
         c04_piecewise.run(ctx)
         t1 = time.time()
